@@ -505,7 +505,8 @@ struct Laid<F: Fl> {
     p: usize,
 }
 impl<F: Fl> Laid<F> {
-    /// layout 0: C order, 1: Fortran order, 2: every second row / inner columns of a larger array
+    /// layout 0: C order, 1: Fortran order, 2: every second row / inner columns of a larger array,
+    /// 3: rows stored back to front and viewed with a negative row stride (contiguous memory)
     fn new(a: &Array2<f64>, layout: u8) -> Laid<F> {
         let (n, p) = a.dim();
         let back = match layout {
@@ -519,6 +520,7 @@ impl<F: Fl> Laid<F> {
                 }
                 t
             }
+            3 => Array2::from_shape_fn((n, p), |(i, j)| F::f(a[[n - 1 - i, j]])),
             _ => {
                 // filler cells are NaN: reading one of them would poison the result visibly
                 let mut t = Array2::<F>::from_elem((2 * n + 1, p + 2), F::f(f64::NAN));
@@ -536,6 +538,7 @@ impl<F: Fl> Laid<F> {
         match self.layout {
             0 => self.back.view(),
             1 => self.back.view().reversed_axes(),
+            3 => self.back.slice(s![..;-1, ..]),
             _ => self
                 .back
                 .slice(s![0..2 * self.n;2, 1..self.p + 1]),
@@ -1013,7 +1016,9 @@ fn end_state_case<F: Fl, D: Dk<F>>(c: &mut Case, mt: Metric, pl: &EndPlan, dist:
     // the reported inertia can never be below the cost of an optimal assignment to the *returned*
     // centroids only for L2 (one more mean step cannot raise the L2 cost); checked in `restarts`.
     tri!(check_queries(c, "training", mt, &fm.model, &fm.c, xv));
-    let m = c.rng.gen_range(1..=40usize);
+    // mostly small batches; now and then one that is longer than any internal block size and not
+    // a multiple of one (batch predictions are computed block-wise / in parallel)
+    let m = if c.rng.gen_range(0..25) == 0 { 2048 + c.rng.gen_range(1..1500usize) } else { c.rng.gen_range(1..=40usize) };
     let fresh = fresh_points(&mut c.rng, &x, &fm.c, m);
     let flaid = Laid::<F>::new(&fresh, pl.qlayout);
     tri!(check_queries(c, "fresh", mt, &fm.model, &fm.c, flaid.view()));
@@ -1987,8 +1992,8 @@ pub fn run(ctx: &Ctx) {
             n_runs: c.rng.gen_range(1..=3),
             tol_rel: gen::log_uniform(&mut c.rng, 1e-8, 1e-1),
             max_iter: *gen::pick(&mut c.rng, &[1u64, 2, 5, 30, 300]),
-            layout: c.rng.gen_range(0..3),
-            qlayout: c.rng.gen_range(0..3),
+            layout: c.rng.gen_range(0..4),
+            qlayout: c.rng.gen_range(0..4),
             seed: c.rng.gen(),
             single_thread: init == InitKind::Para && c.rng.gen_bool(0.5),
             data,
@@ -2023,7 +2028,7 @@ pub fn run(ctx: &Ctx) {
             k,
             c0_kind: c.rng.gen_range(0..5),
             steps: if big { 8 } else { c.tier.pick(12, 25) },
-            layout: c.rng.gen_range(0..3),
+            layout: c.rng.gen_range(0..4),
             data,
         };
         dispatch!(f32_, mt, trajectory_case(c, mt, &pl))
@@ -2060,7 +2065,7 @@ pub fn run(ctx: &Ctx) {
             tol_rel: gen::log_uniform(&mut c.rng, 1e-9, 1e-3),
             budget: 500,
             seed: c.rng.gen(),
-            layout: c.rng.gen_range(0..3),
+            layout: c.rng.gen_range(0..4),
             data,
         };
         dispatch!(f32_, mt, restart_case(c, mt, &pl))
